@@ -117,6 +117,10 @@ class LogicBlock(SystemWideDevice, ModeDevice):
                 self.value = self.get_start_value()
             else:
                 self._state = player[self.player_state_variable]
+                # the monitored attributes now show what this player had: tell their subscribers
+                self.notify_virtual_change("value", None, self.value)           # type: ignore
+                self.notify_virtual_change("enabled", None, self.enabled)       # type: ignore
+                self.notify_virtual_change("completed", None, self.completed)   # type: ignore
         else:
             self._state = LogicBlockState()
             self.value = self.get_start_value()
